@@ -16,7 +16,7 @@ MANIFEST_INFO = {
     "engine": "A",
     "design_ref": "DESIGN.md section 5, C02",
     "technique": "stateless deviation-bounded DFS over stage/cleanup/fixture behaviours of generated TestCase programs whose cleanups, patches and (nested) fixtures are registered at every site (setUp before/after the up-call, test, tearDown, inside another cleanup); execution log compared with the stack-discipline lifecycle model; second run() of the same instance replayed from memoised decisions",
-    "level_text": "For every ordered selection of up to 3 registrations from 21 kinds (patch of a staticmethod / classmethod of a class, cleanup at 4 sites, cleanup registered by a cleanup, patch of an existing/missing attribute incl. double patch, fixture at 3 sites, nested fixture, a fixture whose getDetails raises after a successful setUp, an addOnException handler that itself raises when told about an exception of the test method or tearDown) and every program with at most 2 (quick) / 3 (thorough) deviating stages or fixture hooks, the real run is compared with the model: setUp first, test+tearDown iff setUp returned, then the cleanup stack popped to empty (each registration exactly once, LIFO, BaseExceptions included), patched attributes restored, and a second run() of the same instance produces the same log and outcome. Two clones of one prototype (clone_test_with_new_id) are additionally run as two threads under the scheduler, every stage body being a scheduling point (<= 2 preemptions/deviations): each clone must run exactly its own cleanups.",
+    "level_text": "For every ordered selection of up to 3 registrations from 22 kinds (patch of a staticmethod / classmethod of a class, of a staticmethod a subclass inherits, cleanup at 4 sites, cleanup registered by a cleanup, patch of an existing/missing attribute incl. double patch, fixture at 3 sites, nested fixture, a fixture whose getDetails raises after a successful setUp, an addOnException handler that itself raises when told about an exception of the test method or tearDown) and every program with at most 2 (quick) / 3 (thorough) deviating stages or fixture hooks, the real run is compared with the model: setUp first, test+tearDown iff setUp returned, then the cleanup stack popped to empty (each registration exactly once, LIFO, BaseExceptions included), patched attributes restored, and a second run() of the same instance produces the same log and outcome. Two clones of one prototype (clone_test_with_new_id) are additionally run as two threads under the scheduler, every stage body being a scheduling point (<= 2 preemptions/deviations): each clone must run exactly its own cleanups.",
     "level_note": "Programs always up-call; fixtures use the fixtures 4.x _setUp protocol; attribute writes on the patched object are logged by the object itself.",
 }
 
@@ -42,6 +42,7 @@ REGS = (
     "onexc_raiser@setUp",
     "patch_staticmethod@test",
     "patch_classmethod@setUp",
+    "patch_inherited_staticmethod@test",
 )
 
 FX_SETUP_MENU = (pg.RET, pg.ERROR, pg.KBI)
@@ -135,13 +136,22 @@ def _patched_class(ctx):
             def cm(cls):
                 return ("cm", cls.__name__)
 
+        class Sub(K):
+            """Inherits both; has neither in its own namespace."""
+
         k = ctx.extra["klass"] = K
+        ctx.extra["subklass"] = Sub
         ctx.extra["klass_raw"] = {"sm": vars(K)["sm"], "cm": vars(K)["cm"]}
     return k
 
 
 def do_patch_class(case, ctx, site, action):
     case.patch(_patched_class(ctx), action[1], lambda *a: "patched")
+
+
+def do_patch_subclass(case, ctx, site, action):
+    _patched_class(ctx)
+    case.patch(ctx.extra["subklass"], action[1], lambda *a: "patched")
 
 
 def class_patch_problems(ctx):
@@ -157,11 +167,20 @@ def class_patch_problems(ctx):
             except Exception as e:
                 works = "raises %s" % type(e).__name__
             out.append(("patch-restore", "class attribute %r was a %s before the test and is %r afterwards (still works as before: %s)" % (name, type(raw).__name__, now, works)))
+    sub = ctx.extra["subklass"]
+    try:
+        got = (sub().sm(), type("SubSub", (sub,), {}).cm())
+    except Exception as e:
+        got = "raises %s: %s" % (type(e).__name__, e)
+    if got != (("sm", 1), ("cm", "SubSub")):
+        out.append(("patch-restore", "after the test the subclass's inherited sm()/cm() give %r (own namespace now holds %r)" % (got, sorted(n for n in ("sm", "cm") if n in vars(sub)))))
     return out
 
 
 pg.ACTION_HANDLERS["fixture"] = do_fixture
 pg.ACTION_HANDLERS["patch_class"] = do_patch_class
+pg.ACTION_HANDLERS["patch_subclass"] = do_patch_subclass
+pg.MODEL_ACTION_HANDLERS["patch_subclass"] = lambda model, site, action: model.stack.append(("noop",))
 pg.MODEL_ACTION_HANDLERS["patch_class"] = lambda model, site, action: model.stack.append(("noop",))
 pg.MODEL_STACK_HANDLERS["noop"] = lambda model, item: None
 pg.ACTION_HANDLERS["bad_fixture"] = do_bad_fixture
@@ -276,6 +295,8 @@ def build_actions(regs):
             actions.setdefault(site, []).append(("patch_class", "sm"))
         elif kind == "patch_classmethod":
             actions.setdefault(site, []).append(("patch_class", "cm"))
+        elif kind == "patch_inherited_staticmethod":
+            actions.setdefault(site, []).append(("patch_subclass", "sm"))
         else:
             raise AssertionError(r)
     return actions
@@ -487,7 +508,7 @@ def meta(tier):
     return {
         "technique": MANIFEST_INFO["technique"],
         "rule": "for every registration selection: every choice sequence with <= bound deviating stages / fixture hooks; each execution runs the instance twice; non-trivial = >= 1 deviation; distinct = distinct (registrations, execution log, outcome)",
-        "bounds": {"registrations": "all ordered selections of <=2 of 21 kinds; triples core x any x core (quick) / all triples plus all pairs between two plain cleanups (thorough)", "deviations": 2 if tier == "quick" else 3, "stage_kinds": list(KINDS)},
+        "bounds": {"registrations": "all ordered selections of <=2 of 22 kinds; triples core x any x core (quick) / all triples plus all pairs between two plain cleanups (thorough)", "deviations": 2 if tier == "quick" else 3, "stage_kinds": list(KINDS)},
         "assumptions": ["programs always up-call", "cleanup functions registered by the harness are distinct objects with unique ids"],
     }
 
